@@ -286,10 +286,12 @@ def _run_scenario(case, ctx, threads=2):
                 sim.time_step(dt=dt, free_stream_velocity=np.array([0.5, -0.25, 0.125][:dim]))
             else:
                 sim.time_step(dt=dt)
-            sim.compute_stable_timestep()
+            qbox[0] = float(sim.compute_stable_timestep())
 
-        # vorticity / primary depends only on SophT kernels; velocity also on the FFT
-        obs = {"primary": prim, "velocity": sim.velocity_field}
+        # vorticity / primary depends only on SophT kernels; velocity also on the FFT; the stable-step query reduces the velocity
+        # field with max(), which is exact in any order, so its value may not depend on the thread count either
+        qbox = np.zeros(1)
+        obs = {"primary": prim, "velocity": sim.velocity_field, "stable_timestep_query": qbox}
         return run, obs
     shape = tuple(case["shape"])
     dim = len(shape)
